@@ -1,7 +1,7 @@
 #!/bin/bash
-# runs every seeded change against its check on a SNAPSHOT of /repo (vp run --with-repo -- tools/seedmatrix.sh): prints one line per
-# seed and a summary; /repo itself is never touched
+# runs every seeded change against its check on a SNAPSHOT of /repo (vp run --with-repo -- tools/seedmatrix.sh [seed-name ...]): prints
+# one line per seed and a summary; /repo itself is never touched.  VERIF_SEED=<n> in the environment selects the generator seed.
 cd "$(dirname "$0")/.." || exit 2
 [ -n "$VP_RUN_REPO" ] && export KAPTURE_REPO=$VP_RUN_REPO
 [ -d lean/.lake ] || ./setup.sh > /dev/null 2>&1
-python3 tools/seedrun.py "$@" 2>&1 | grep -v "^clean" | tee /dev/stderr | awk '/CAUGHT/{c++} /MISSED/{m++} END{print "SEED MATRIX caught=" c " missed=" m}'
+python3 tools/seedrun.py "$@" 2>&1 | grep -v "^clean" | tee /dev/stderr | awk '/CAUGHT/{c++} /MISSED/{m++} /does not apply/{a++} END{print "SEED MATRIX seed=" ENVIRON["VERIF_SEED"] " caught=" c " missed=" m " unapplied=" a}'
